@@ -122,6 +122,19 @@ Json::Value gen() {
   c["sink"]["after"] = P(50) ? 0 : R(0, 200000);
   c["sink"]["slow_us"] = R(1, 200);
   c["kmsg"] = P(50);
+  // far more than 65536 tiny lines offered while the sink is blocked from the start: the number dropped in
+  // one flush cycle is large
+  if (P(3)) {
+    Json::Value pr(Json::objectValue);
+    pr["flood"]["n"] = R(110000, 190000);
+    pr["flood"]["len"] = R(1, 6);
+    pr["yield"] = 0;
+    c["producers"] = Json::Value(Json::arrayValue);
+    c["producers"].append(pr);
+    c["sink"]["mode"] = "block";
+    c["sink"]["after"] = 0;
+    c.removeMember("oversized");
+  }
   // late entry into every condition wait, and a short random pause before shutdown (asan build only)
   if (P(35)) {
     c["condwait_delay_us"] = R(100, 4000);
@@ -134,7 +147,27 @@ struct Line {
   int tid, seq;
 };
 
-Verdict run(const Json::Value& c) {
+Verdict runExpanded(const Json::Value& c);
+// {"flood":{"n":N,"len":L}} on a producer stands for N lines of L bytes (kept out of the case file)
+Verdict run(const Json::Value& c0) {
+  bool flood = false;
+  for (auto& pr : c0["producers"])
+    if (pr.isMember("flood")) flood = true;
+  if (!flood) return runExpanded(c0);
+  Json::Value c = c0;
+  for (auto& pr : c["producers"])
+    if (pr.isMember("flood")) {
+      int n = pr["flood"]["n"].asInt(), len = pr["flood"]["len"].asInt();
+      Json::Value lines(Json::arrayValue);
+      for (int i = 0; i < n; i++) lines.append(len);
+      pr["lines"] = lines;
+    }
+  Verdict v = runExpanded(c);
+  v.labels.push_back("flood_of_tiny_lines");
+  return v;
+}
+
+Verdict runExpanded(const Json::Value& c) {
   Verdict v;
   Process::get();
   CtlBuf buf;
